@@ -113,7 +113,9 @@ func evalHelperArgs(fn *ssa.Function, c byte, args []aval, depth int) (result bo
 					name = cal.Pkg.Pkg.Path() + "." + cal.Name()
 				}
 				switch name {
-				case "strings.TrimSpace", "strings.TrimLeft":
+				case "strings.TrimSpace", "strings.TrimLeft", "strings.FieldsFunc", "strings.Fields", "strings.Join":
+					// the line, or the line with its runs of blanks read as one: the character that follows the matched
+					// prefix is the same unless it is a blank
 					vals[x] = aval{kind: "line"}
 				case "strings.CutPrefix":
 					vals[x] = aval{kind: "cut"}
@@ -309,6 +311,14 @@ func Finders(p *load.Prog, r *oblig.Report, rule string, lg *g4.Grammar) {
 			r.Unknown(rule, construct, p.Pos(fn.Pos()), "no function that tests a line against keyword+name was found in what the finder reaches")
 			continue
 		}
+		// blanks: the keyword and the name are separated by one or more of the lexer's WHITESPACE characters; a literal
+		// prefix written with single spaces matches only if the runs of blanks in the line are read as one space
+		// (strings.Fields / FieldsFunc joined again) or the comparison is done by a regular expression
+		if blanks := blanksNormalised(helper); blanks != "" {
+			r.Bad(rule, "finder-blanks:"+name, p.Pos(helper.Pos()), blanks)
+		} else {
+			r.OK(rule, "finder-blanks:"+name, p.Pos(helper.Pos()), "value-origin", "the line is compared with runs of blanks read as one space")
+		}
 		var mistaken []string
 		undecided := ""
 		for c := 0; c < 256; c++ {
@@ -342,4 +352,63 @@ func Finders(p *load.Prog, r *oblig.Report, rule string, lg *g4.Grammar) {
 			r.Bad(rule, "finder-scope:GetRelationLineNumber", p.Pos(fn.Pos()), "the relation finder searches `define <relation>` in the whole file without regard to the type: a same-named relation of an earlier type is returned")
 		}
 	}
+}
+
+// blanksNormalised: the subject of the prefix comparison in the helper derives from strings.Join(strings.Fields…(line), …)
+// (or the helper uses package regexp). Returns "" when it does, else what is wrong.
+func blanksNormalised(helper *ssa.Function) string {
+	var derives func(v ssa.Value, depth int) bool
+	derives = func(v ssa.Value, depth int) bool {
+		if depth > 8 {
+			return false
+		}
+		switch x := v.(type) {
+		case *ssa.Call:
+			cal := x.Common().StaticCallee()
+			if cal == nil || cal.Pkg == nil {
+				return false
+			}
+			switch cal.Pkg.Pkg.Path() + "." + cal.Name() {
+			case "strings.Fields", "strings.FieldsFunc":
+				return true
+			case "strings.Join", "strings.TrimSpace", "strings.TrimLeft", "strings.TrimRight", "strings.ToLower":
+				return derives(x.Common().Args[0], depth+1)
+			}
+		case *ssa.Phi:
+			for _, e := range x.Edges {
+				if derives(e, depth+1) {
+					return true
+				}
+			}
+		case *ssa.Extract:
+			return derives(x.Tuple, depth+1)
+		}
+		return false
+	}
+	found := false
+	for _, b := range helper.Blocks {
+		for _, in := range b.Instrs {
+			call, ok := in.(*ssa.Call)
+			if !ok {
+				continue
+			}
+			cal := call.Common().StaticCallee()
+			if cal == nil || cal.Pkg == nil {
+				continue
+			}
+			if cal.Pkg.Pkg.Path() == "regexp" {
+				return ""
+			}
+			if cal.Pkg.Pkg.Path() == "strings" && (cal.Name() == "CutPrefix" || cal.Name() == "HasPrefix" || cal.Name() == "TrimPrefix") {
+				found = true
+				if !derives(call.Common().Args[0], 0) {
+					return "the line is compared with the literal 'keyword name' (one space): the lexer accepts any run of spaces, tabs and form feeds between a keyword and a name, so 'type  user' or 'define\tviewer' is not found and the error is reported at line 0, column 0"
+				}
+			}
+		}
+	}
+	if !found {
+		return "no prefix comparison found in " + helper.Name()
+	}
+	return ""
 }
